@@ -840,6 +840,86 @@ ITEMS.append(('pr_more', lambda: G.emit_pattern_roles('pr_more', [
     (RLFQ, 'ResidualLFQ.get_codes_from_indices'), (RSVQ, 'ResidualSimVQ.get_codes_from_indices'),
     (SIMVQ, 'SimVQ.forward'), (SIMVQ, 'SimVQ.indices_to_codes'), (LQ, 'LatentQuantize.forward'), (LQ, 'LatentQuantize.indices_to_codes')])))
 
+# ------------------------------------------------------------------ footprints (G5)
+# For every property: the functions / methods its behaviour depends on, as whole normalised source text (ast.unparse: comments and layout do not
+# matter).  Pinned by Glue/Pin_fp_Cxx.v: ANY edit of a function in the footprint breaks the obligation of that property, the correspondence then
+# searches for a failing input (VIOLATION ... no-failing-input-found when the edit is harmless).  This is the coarse safety net under the
+# semantic ties (kernels, guards, einops glue): it guarantees that no change inside the footprint goes unreported.
+_EU, _CO, _VQc = 'EuclideanCodebook', 'CosineSimCodebook', 'VectorQuantize'
+_CB_FWD = [(VQ, f'{_EU}.forward'), (VQ, f'{_CO}.forward')]
+_RES_FWD = [(RVQ, 'ResidualVQ.forward'), (RFSQ, 'ResidualFSQ.forward'), (RLFQ, 'ResidualLFQ.forward'), (RSVQ, 'ResidualSimVQ.forward')]
+_GRP_FWD = [(RVQ, 'GroupedResidualVQ.forward'), (RFSQ, 'GroupedResidualFSQ.forward'), (RLFQ, 'GroupedResidualLFQ.forward')]
+_DECODE = [(VQ, f'{_VQc}.get_codes_from_indices'), (VQ, f'{_VQc}.get_output_from_indices')] + \
+    [(f, f'{c}.{m}') for f, c in ((RVQ, 'ResidualVQ'), (RVQ, 'GroupedResidualVQ'), (RFSQ, 'ResidualFSQ'), (RFSQ, 'GroupedResidualFSQ'), (RLFQ, 'ResidualLFQ'),
+                                  (RLFQ, 'GroupedResidualLFQ'), (RSVQ, 'ResidualSimVQ')) for m in ('codebooks', 'get_codes_from_indices', 'get_output_from_indices')] + \
+    [(FSQF, 'FSQ._indices_to_codes'), (FSQF, 'FSQ.indices_to_level_indices'), (FSQF, 'FSQ.indices_to_codes'), (FSQF, 'FSQ.codes_to_indices'), (FSQF, 'FSQ._scale_and_shift'),
+     (FSQF, 'FSQ._scale_and_shift_inverse'), (LFQF, 'LFQ.bits_to_codes'), (LFQF, 'LFQ.indices_to_codes'), (SIMVQ, 'SimVQ.codebook'), (SIMVQ, 'SimVQ.indices_to_codes'),
+     (LQ, 'LatentQuantize.indices_to_codes'), (LQ, 'LatentQuantize.codes_to_indices'), (LQ, 'LatentQuantize._scale_and_shift'), (LQ, 'LatentQuantize._scale_and_shift_inverse')]
+_SEEDS = [(f, n) for f in (RVQ, RFSQ, RLFQ, RSVQ) for n in ('get_maybe_sync_seed', 'round_up_multiple')]
+_ROT = [(VQ, 'rotate_to'), (VQ, 'efficient_rotation_trick_transform'), (VQ, 'safe_div'), (VQ, 'l2norm')]
+_SAMPLE = [(VQ, 'sample_vectors'), (VQ, 'batched_sample_vectors')]
+_DIST = [(VQ, 'all_gather_sizes'), (VQ, 'all_gather_variably_sized'), (VQ, 'sample_vectors_distributed'), (VQ, 'sample_multinomial'), (VQ, 'pad_shape')]
+_INITS = [(VQ, f'{_EU}.__init__'), (VQ, f'{_CO}.__init__'), (VQ, f'{_VQc}.__init__'), (RVQ, 'ResidualVQ.__init__'), (FSQF, 'FSQ.__init__'), (LFQF, 'LFQ.__init__'),
+          (RFSQ, 'ResidualFSQ.__init__'), (RLFQ, 'ResidualLFQ.__init__'), (RSVQ, 'ResidualSimVQ.__init__'), (SIMVQ, 'SimVQ.__init__'), (LQ, 'LatentQuantize.__init__'),
+          (RPQ, 'RandomProjectionQuantizer.__init__')]
+_ALL_FWD = _CB_FWD + [(VQ, f'{_VQc}.forward'), (VQ, f'{_VQc}.maybe_split_heads_from_input')] + _RES_FWD + _GRP_FWD + \
+    [(FSQF, 'FSQ.forward'), (LFQF, 'LFQ.forward'), (SIMVQ, 'SimVQ.forward'), (LQ, 'LatentQuantize.forward'), (LQ, 'LatentQuantize.quantize'), (RPQ, 'RandomProjectionQuantizer.forward')]
+FOOTPRINT = {
+    'C01': [(VQ, 'cdist'), (VQ, 'l2norm'), (VQ, 'gumbel_sample')] + _CB_FWD + [(VQ, f'{_VQc}.forward'), (VQ, f'{_VQc}.maybe_split_heads_from_input'), (SIMVQ, 'SimVQ.forward'),
+            (LQ, 'LatentQuantize.quantize'), (RPQ, 'RandomProjectionQuantizer.forward'), (RVQ, 'ResidualVQ.forward'), (RVQ, 'MLP.forward'), (RSVQ, 'ResidualSimVQ.forward')],
+    'C02': _DECODE + _ALL_FWD,
+    'C03': [(VQ, 'ema_inplace'), (VQ, 'laplace_smoothing'), (VQ, f'{_EU}.update_ema'), (VQ, f'{_CO}.update_ema'), (RVQ, 'ResidualVQ.forward')] + _CB_FWD,
+    'C04': [(FSQF, n) for n in ('round_ste', 'floor_ste', 'FSQ.__init__', 'FSQ.bound', 'FSQ.symmetry_preserving_bound', 'FSQ.quantize', 'FSQ._scale_and_shift', 'FSQ._scale_and_shift_inverse',
+                                'FSQ._indices_to_codes', 'FSQ.codes_to_indices', 'FSQ.indices_to_level_indices', 'FSQ.indices_to_codes', 'FSQ.forward')] +
+           [(LFQF, 'LFQ.__init__'), (LFQF, 'LFQ.bits_to_codes'), (LFQF, 'LFQ.indices_to_codes'), (LFQF, 'LFQ.forward'), (LQ, 'LatentQuantize.codes_to_indices'),
+            (LQ, 'LatentQuantize.indices_to_codes'), (LQ, 'LatentQuantize._scale_and_shift'), (LQ, 'LatentQuantize._scale_and_shift_inverse')],
+    'C05': [(FSQF, n) for n in ('round_ste', 'floor_ste', 'FSQ.bound', 'FSQ.symmetry_preserving_bound', 'FSQ.quantize', 'FSQ.forward')] + [(LFQF, 'LFQ.forward')],
+    'C06': _RES_FWD + _GRP_FWD + [(RVQ, 'ResidualVQ.codebooks'), (RVQ, 'ResidualVQ.get_codes_from_indices'), (RVQ, 'GroupedResidualVQ.split_dim')],
+    'C07': _ROT + [(VQ, 'gumbel_sample'), (VQ, f'{_VQc}.forward'), (FSQF, 'round_ste'), (FSQF, 'floor_ste'), (FSQF, 'FSQ.quantize'), (LFQF, 'LFQ.forward'), (SIMVQ, 'SimVQ.forward'),
+                   (LQ, 'LatentQuantize.quantize')] + _CB_FWD,
+    'C08': _ALL_FWD + [(VQ, f'{_VQc}.update_in_place_optimizer'), (VQ, f'{_VQc}.expire_codes_'), (VQ, f'{_EU}.expire_codes_'), (VQ, f'{_CO}.expire_codes_'),
+                       (VQ, f'{_EU}.init_embed_'), (VQ, f'{_CO}.init_embed_')] + _DECODE[:2],
+    'C09': [(VQ, 'lens_to_mask'), (VQ, f'{_EU}.init_embed_'), (VQ, f'{_CO}.init_embed_'), (VQ, f'{_EU}.expire_codes_'), (VQ, f'{_CO}.expire_codes_'), (VQ, f'{_VQc}.forward'),
+            (RVQ, 'ResidualVQ.forward'), (RVQ, 'GroupedResidualVQ.forward'), (LFQF, 'LFQ.forward'), (RLFQ, 'ResidualLFQ.forward')] + _CB_FWD,
+    'C10': [(VQ, f'{_VQc}.forward'), (VQ, f'{_VQc}.maybe_split_heads_from_input'), (VQ, 'safe_div'), (VQ, 'rotate_to'), (VQ, 'efficient_rotation_trick_transform'), (FSQF, 'FSQ.forward'),
+            (LFQF, 'LFQ.forward'), (SIMVQ, 'SimVQ.forward'), (SIMVQ, 'pack_one'), (LQ, 'LatentQuantize.forward'), (RFSQ, 'ResidualFSQ.forward'), (RSVQ, 'ResidualSimVQ.forward')] + _CB_FWD,
+    'C11': [(VQ, f'{_EU}.replace'), (VQ, f'{_EU}.expire_codes_'), (VQ, f'{_CO}.replace'), (VQ, f'{_CO}.expire_codes_'), (VQ, f'{_VQc}.expire_codes_'), (RVQ, 'ResidualVQ.forward')] + _SAMPLE + _CB_FWD,
+    'C12': _SEEDS + _RES_FWD + _GRP_FWD,
+    'C13': _ALL_FWD + [(VQ, 'rotate_to'), (VQ, 'lens_to_mask'), (SIMVQ, 'pack_one'), (RSVQ, 'ResidualSimVQ.get_codes_from_indices')],
+    'C14': [(VQ, 'kmeans'), (VQ, 'batched_bincount'), (VQ, f'{_EU}.init_embed_'), (VQ, f'{_CO}.init_embed_')] + _SAMPLE + _CB_FWD,
+    'C15': _INITS + [(VQ, f'{_EU}.replace'), (VQ, f'{_CO}.replace'), (VQ, f'{_EU}.init_embed_'), (VQ, f'{_CO}.init_embed_'), (VQ, f'{_VQc}.update_in_place_optimizer')] + _SAMPLE,
+    'C16': _DIST + [(VQ, 'kmeans'), (VQ, f'{_EU}.__init__'), (VQ, f'{_CO}.__init__'), (VQ, f'{_EU}.update_ema'), (VQ, f'{_CO}.update_ema'), (RVQ, 'get_maybe_sync_seed'),
+                    (LFQF, 'maybe_distributed_mean')] + _CB_FWD,
+    'C17': [(VQ, 'orthogonal_loss_fn'), (VQ, f'{_VQc}.forward'), (SIMVQ, 'SimVQ.forward'), (LFQF, 'LFQ.forward'), (LFQF, 'entropy'), (LFQF, 'log'), (LQ, 'LatentQuantize.quantization_loss'),
+            (LQ, 'LatentQuantize.commitment_loss'), (LQ, 'LatentQuantize.forward'), (RVQ, 'ResidualVQ.forward'), (RLFQ, 'ResidualLFQ.forward'), (RSVQ, 'ResidualSimVQ.forward')],
+    'C18': _ROT + [(VQ, 'log'), (VQ, 'cdist'), (VQ, 'laplace_smoothing'), (VQ, f'{_EU}.update_ema'), (VQ, f'{_CO}.update_ema'), (VQ, 'kmeans'), (VQ, 'gumbel_noise'), (VQ, 'gumbel_sample'),
+                   (FSQF, 'FSQ.bound'), (FSQF, 'FSQ.symmetry_preserving_bound'), (LFQF, 'LFQ.forward'), (LFQF, 'entropy'), (LFQF, 'log'), (LFQF, 'l2norm'), (VQ, 'orthogonal_loss_fn')] + _CB_FWD,
+    'C19': [(VQ, 'gumbel_noise'), (VQ, 'gumbel_sample'), (VQ, 'log'), (RVQ, 'ResidualVQ.forward')] + _CB_FWD,
+    'C20': [(RPQ, 'RandomProjectionQuantizer.__init__'), (RPQ, 'RandomProjectionQuantizer.forward'), (SIMVQ, 'SimVQ.__init__'), (SIMVQ, 'SimVQ.codebook'), (SIMVQ, 'SimVQ.forward'),
+            (SIMVQ, 'SimVQ.indices_to_codes'), (FSQF, 'FSQ.__init__'), (FSQF, 'FSQ.forward'), (LFQF, 'LFQ.__init__'), (LFQF, 'LFQ.forward'), (RFSQ, 'ResidualFSQ.__init__'),
+            (RFSQ, 'ResidualFSQ.forward'), (RFSQ, 'ResidualFSQ.get_codes_from_indices'), (RLFQ, 'ResidualLFQ.__init__'), (RLFQ, 'ResidualLFQ.forward'), (RLFQ, 'ResidualLFQ.get_codes_from_indices'),
+            (RSVQ, 'ResidualSimVQ.__init__'), (RSVQ, 'ResidualSimVQ.forward'), (RSVQ, 'ResidualSimVQ.get_codes_from_indices')],
+}
+
+
+def _footprint_item(pid):
+    rows = []
+    seen = set()
+    for fname, qual in FOOTPRINT[pid]:
+        if (fname, qual) in seen:
+            continue
+        seen.add((fname, qual))
+        nodes = G.find_funcs(fname, qual)
+        if not nodes:
+            raise GenError(f'footprint of {pid}: {fname}:{qual} not found')
+        for k, f in enumerate(nodes):
+            rows.append(f'{fname}:{qual}' + (f'#{k}' if len(nodes) > 1 else '') + ' := ' + ast.unparse(f).replace('\n', ' \\n '))
+    return G.emit_strings(f'fp_{pid}', rows, f'source footprint of {pid}: whole functions, normalised text')
+
+
+for _pid in sorted(FOOTPRINT):
+    ITEMS.append((f'fp_{_pid}', (lambda _pid=_pid: _footprint_item(_pid))))
+
 ITEMS = [(n, f) for n, f in ITEMS if f is not None]
 
 
